@@ -144,7 +144,8 @@ def _transport(kind, workdir):
     if kind == 'pickle':
         return None
     if kind == 'yaml':
-        return lambda b: yaml.load(yaml.dump(b), Loader=yaml.Loader)
+        # (the keys in the order of the mappings: a context is read in the order in which its entries were made)
+        return lambda b: yaml.load(yaml.dump(b, sort_keys=False), Loader=yaml.Loader)
     if kind == 'mem':
         pers = plumpy.InMemoryPersister()
     else:
